@@ -132,7 +132,7 @@ func TestC01(t *testing.T) {
 		return
 	}
 
-	perType := vf.N(400, 60000)
+	perType := vf.N(400, 400000)
 	for typ := uint8(1); typ <= 15; typ++ {
 		typ := typ
 		n := perType
